@@ -177,7 +177,7 @@ def run_prim(prog: Program, impl: str, prim: str, present: set, typ, n1: bool,
     group, name = prim.split(".")
     mod = ENGINE_MOD[impl]
     fi = prog.function(mod, f"{GROUP_CLS[group]}.{name}")
-    mi = prog.modules[mod]
+    mi = prog.modules[fi.module]
     where = f"{mi.relpath}:{fi.node.lineno} {fi.qualname}"
     tvs, terms = arg_terms(prim, present, typ, scalar_rank, (0,) if n1 else (1, 3))
     results = []
